@@ -124,11 +124,17 @@ func dkgStepRun(kind string, r *prng.R, s *out.Sink, n, t, msgLen int, scenario 
 	for i := range parties {
 		parties[i] = uint16(i + 1)
 	}
-	if dkgStepInst%3 == 0 {
+	switch dkgStepInst % 6 {
+	case 0, 3, 4:
 		// party identifiers from the corners of the 16-bit range (sorted, as the orchestrator hands them over)
 		parties = pickIDs(r, n)
 		sort.Slice(parties, func(i, j int) bool { return parties[i] < parties[j] })
 		s.Count("dkg/corner-identifiers")
+	case 1:
+		// the same list in another order, identical at every party (the backend's interface does not ask for a sorted list;
+		// a party's evaluation point is its position)
+		parties[0], parties[n-1] = parties[n-1], parties[0]
+		s.Count("dkg/permuted-party-list")
 	}
 	w := &stepWorld{victim: parties[r.Intn(n)], backs: map[uint16]tss.KeyGenerator{}, events: make(chan string, 64)}
 	V := w.victim
@@ -136,7 +142,7 @@ func dkgStepRun(kind string, r *prng.R, s *out.Sink, n, t, msgLen int, scenario 
 	// wait — after it has tested the context, holding its lock, before sync.Cond.Wait. The context monitor's wake-up must
 	// not get lost in that window.
 	cancelAtPark := 0
-	if scenario == "honest" && r.Intn(2) == 0 {
+	if scenario == "honest" && dkgStepInst%4 == 1 {
 		cancelAtPark = 1 + r.Intn(3)
 	}
 	var parks, hookCancelled int32
@@ -190,11 +196,15 @@ func dkgStepRun(kind string, r *prng.R, s *out.Sink, n, t, msgLen int, scenario 
 		}()
 	}
 	var vres []byte
+	var verr error
+	vpanicked := false
 	go func() {
 		var err error
 		x := safely(func() string { vres, err = w.backs[V].KeyGen(ctx); return "" })
+		verr = err
 		switch {
 		case x == "panic":
+			vpanicked = true
 			w.events <- "panic"
 		case err != nil:
 			w.events <- "ret:err"
@@ -525,6 +535,19 @@ func dkgStepRun(kind string, r *prng.R, s *out.Sink, n, t, msgLen int, scenario 
 	}
 	if vres != nil && tamperedFirst && t < n && mismatchFrom == 0 {
 		s.Violate("C05", "the party under test completed although a share off its dealer's polynomial was the first to arrive (the keys cannot lie on one polynomial)", desc+"\n"+strings.Join(hist, "\n"))
+	}
+	// the all-subsets cross-check of the real KeyGen (C18): an off-polynomial key is detected whichever party it belongs to,
+	// keys on one polynomial are always accepted — whatever the party identifiers are
+	if vres != nil && tamperedFirst && t < n && mismatchFrom == 0 {
+		s.Violate("C18", fmt.Sprintf("the t-subset cross-check of the key generation accepted a set of keys one of which is off the common polynomial (n=%d, t=%d, parties %v)", n, t, parties), desc+"\n"+strings.Join(hist, "\n"))
+	}
+	if scenario == "honest" && (vpanicked || (!cancelled && cancelAtPark == 0)) {
+		switch {
+		case vpanicked:
+			s.Violate("C18", fmt.Sprintf("a fault-free key generation with parties %v (n=%d, t=%d) panicked in the party under test", parties, n, t), desc+"\n"+strings.Join(hist, "\n"))
+		case verr != nil:
+			s.Violate("C18", fmt.Sprintf("a fault-free key generation with parties %v (n=%d, t=%d: keys on one polynomial) was rejected: %v", parties, n, t, verr), desc+"\n"+strings.Join(hist, "\n"))
+		}
 	}
 	if vres != nil {
 		vpk := thresholdPKOf(kind, V, parties, t, msgLen, vres)
